@@ -215,7 +215,7 @@ class Buffer:
         returns the content of the buffer, decoded with given parameters.
         """
         if self.padding is Padding.RIGHT:
-            buffer = self.pad(padding=Padding.LEFT)
+            buffer = self.pad(padding=Padding.LEFT, inplace=False)
         else:
             buffer = self
         
